@@ -807,15 +807,17 @@ def execute(cases):
     logging.getLogger("pyatv").setLevel(logging.CRITICAL)
     results = []
 
-    async def all_():
-        for transport, base, evs in cases:
+    async def batch(chunk):
+        for transport, base, evs in chunk:
             try:
                 steps, ad = await run_script(transport, base, evs)
             except Exception as ex:  # the harness must not crash on changed code
                 steps, ad = [[("raised", type(ex).__name__)]] + [[] for _ in evs[1:]], None
             results.append((transport, base, evs, steps, ad))
 
-    vloop.run(all_)
+    # a fresh loop per batch: cancelled timers pile up in a loop's heap otherwise
+    for i in range(0, len(cases), 100):
+        vloop.run(batch, cases[i:i + 100])
     return results
 
 
